@@ -90,3 +90,122 @@ Proof.
   - apply map_ext_in. intros p I. rewrite Hn; [reflexivity|]. unfold node_ids. apply in_map. exact I.
   - apply map_ext_in. intros [[a b] x] I. destruct (He a b x I) as [-> ->]. reflexivity.
 Qed.
+
+(* ------------------------------------------------------------------ zset / zassoc / zsort: the atom-map dictionaries *)
+Lemma zset_new {V} (k : Z) (v : V) l : ~ In k (map fst l) -> zset k v l = l ++ [(k, v)].
+Proof.
+  induction l as [|[k' v'] r IH]; simpl; intros Hn; [reflexivity|].
+  destruct (Z.eqb_spec k k') as [->|Hne]; [exfalso; apply Hn; left; reflexivity|].
+  rewrite IH; [reflexivity|]. intros I. apply Hn. right. exact I.
+Qed.
+
+Lemma amap_table_spec (g : mgraph) :
+  (forall p, In p (gnodes g) -> 0 < g_amap (snd p)) -> NoDup (map (fun p : N * gnode => g_amap (snd p)) (gnodes g)) ->
+  amap_table g = map (fun p : N * gnode => (g_amap (snd p), fst p)) (gnodes g).
+Proof.
+  unfold amap_table. intros Hpos Hnd.
+  assert (G : forall l acc, (forall p, In p l -> 0 < g_amap (snd p)) ->
+             NoDup (map fst acc ++ map (fun p : N * gnode => g_amap (snd p)) l) ->
+             fold_left (fun a (p : N * gnode) => if 0 <? g_amap (snd p) then zset (g_amap (snd p)) (fst p) a else a) l acc
+             = acc ++ map (fun p : N * gnode => (g_amap (snd p), fst p)) l).
+  { induction l as [|x l IH]; intros acc Hp Hn; simpl; [rewrite app_nil_r; reflexivity|].
+    assert (Hx : 0 <? g_amap (snd x) = true) by (apply Z.ltb_lt; apply Hp; left; reflexivity). rewrite Hx.
+    assert (Hk : ~ In (g_amap (snd x)) (map fst acc)).
+    { simpl in Hn. apply NoDup_remove_2 in Hn. intros I. apply Hn. apply in_or_app. left. exact I. }
+    rewrite (zset_new _ _ _ Hk). rewrite IH.
+    - rewrite <- app_assoc. reflexivity.
+    - intros p I. apply Hp. right. exact I.
+    - rewrite map_app. simpl. rewrite <- app_assoc. simpl. exact Hn. }
+  apply (G (gnodes g) []); auto.
+Qed.
+
+Lemma zassoc_in {V} k (l : list (Z * V)) v : zassoc k l = Some v -> In (k, v) l.
+Proof.
+  induction l as [|[k' v'] r IH]; simpl; [discriminate|].
+  destruct (Z.eqb_spec k k') as [->|Hne]; [intros [= ->]; left; reflexivity|]. intros H. right. apply IH. exact H.
+Qed.
+Lemma zassoc_nodup_in {V} k (l : list (Z * V)) v : NoDup (map fst l) -> In (k, v) l -> zassoc k l = Some v.
+Proof.
+  induction l as [|[k' v'] r IH]; simpl; [intros _ []|].
+  intros Hnd Hin. inversion Hnd as [|? ? Hnotin Hnd']; subst.
+  destruct Hin as [E|Hin].
+  - inversion E; subst. rewrite Z.eqb_refl. reflexivity.
+  - destruct (Z.eqb_spec k k') as [->|Hne].
+    + exfalso. apply Hnotin. change k' with (fst (k', v)). apply in_map. exact Hin.
+    + apply IH; assumption.
+Qed.
+
+Fixpoint zsorted (l : list Z) : Prop :=
+  match l with [] => True | x :: r => (forall y, In y r -> x < y) /\ zsorted r end.
+Lemma zinsert_in k l x : In x (zinsert k l) <-> x = k \/ In x l.
+Proof.
+  induction l as [|y r IH]; simpl; [intuition|].
+  destruct (k <? y); simpl; [intuition|]. destruct (Z.eqb_spec k y) as [->|Hne]; simpl; [intuition|].
+  rewrite IH. intuition.
+Qed.
+Lemma zinsert_sorted k l : zsorted l -> zsorted (zinsert k l).
+Proof.
+  induction l as [|y r IH]; simpl; [intuition|]. intros [H1 H2].
+  destruct (Z.ltb_spec k y) as [Hlt|Hge]; simpl.
+  - split; [|split; auto]. intros z [<-|I]; [exact Hlt|]. specialize (H1 z I). lia.
+  - destruct (Z.eqb_spec k y) as [->|Hne]; simpl; [split; auto|].
+    split; [|apply IH; exact H2]. intros z I. apply zinsert_in in I. destruct I as [->|I]; [lia|apply H1; exact I].
+Qed.
+Lemma zsort_in l x : In x (zsort l) <-> In x l.
+Proof. induction l as [|y r IH]; simpl; [tauto|]. rewrite zinsert_in, IH. intuition. Qed.
+Lemma zsort_sorted l : zsorted (zsort l).
+Proof. induction l; simpl; [exact I|apply zinsert_sorted; assumption]. Qed.
+Lemma zsorted_nodup l : zsorted l -> NoDup l.
+Proof.
+  induction l as [|x r IH]; simpl; [constructor|]. intros [H1 H2]. constructor; [|apply IH; exact H2].
+  intros I. specialize (H1 x I). lia.
+Qed.
+
+(** get_aam_pairwise_indices *)
+Lemma aam_pairs_in (G H : mgraph) a b :
+  In (a, b) (aam_pairs G H) <-> exists k, zassoc k (amap_table G) = Some a /\ zassoc k (amap_table H) = Some b.
+Proof.
+  unfold aam_pairs. rewrite in_flat_map. split.
+  - intros (k & _ & I). exists k. destruct (zassoc k (amap_table G)), (zassoc k (amap_table H)); try (destruct I; fail).
+    destruct I as [E|[]]. inversion E; subst. auto.
+  - intros (k & E1 & E2). exists k. split.
+    + apply zsort_in. apply zassoc_in in E1. change k with (fst (k, a)). apply in_map. exact E1.
+    + rewrite E1, E2. left. reflexivity.
+Qed.
+
+Lemma map_flat_map {X Y W} (g : Y -> W) (F : X -> list Y) l : map g (flat_map F l) = flat_map (fun x => map g (F x)) l.
+Proof. induction l; simpl; [reflexivity|]. rewrite map_app. congruence. Qed.
+
+Lemma aam_pairs_snd_nodup (G H : mgraph) :
+  (forall k k' b, zassoc k (amap_table H) = Some b -> zassoc k' (amap_table H) = Some b -> k = k') ->
+  NoDup (map snd (aam_pairs G H)).
+Proof.
+  intros Hinj. unfold aam_pairs. rewrite map_flat_map. apply Mono.NoDup_flat_map.
+  - apply zsorted_nodup. apply zsort_sorted.
+  - intros k _. destruct (zassoc k (amap_table G)), (zassoc k (amap_table H)); simpl; repeat constructor; intros [].
+  - intros k k' y _ _ I I'.
+    destruct (zassoc k (amap_table G)); [|destruct I]. destruct (zassoc k (amap_table H)) eqn:E1; [|destruct I].
+    destruct (zassoc k' (amap_table G)); [|destruct I']. destruct (zassoc k' (amap_table H)) eqn:E2; [|destruct I'].
+    simpl in I, I'. destruct I as [<-|[]]. destruct I' as [E|[]]. subst. eapply Hinj; eauto.
+Qed.
+
+(** mapping = {old: new for new, old in node_map} *)
+Definition swap (p : N * N) : N * N := (snd p, fst p).
+Lemma remap_mapping_spec (l : list (N * N)) : NoDup (map snd l) -> remap_mapping l = map swap l.
+Proof.
+  intros Hnd. unfold remap_mapping. rewrite (fold_set_val (fun p : N * N => snd p) (fun p => fst p)); [reflexivity|exact Hnd].
+Qed.
+
+(** sorted(...) of node ids *)
+Lemma ninsert_perm k l : Permutation (ninsert k l) (k :: l).
+Proof.
+  induction l as [|x r IH]; simpl; [apply Permutation_refl|]. destruct (N.leb k x); [apply Permutation_refl|].
+  eapply Permutation_trans; [apply perm_skip; exact IH|apply perm_swap].
+Qed.
+Lemma nsort_perm l : Permutation (nsort l) l.
+Proof. induction l; simpl; [constructor|]. eapply Permutation_trans; [apply ninsert_perm|apply perm_skip; assumption]. Qed.
+
+Lemma map_snd_combine {X Y} (l1 : list X) : forall l2 : list Y, length l1 = length l2 -> map snd (combine l1 l2) = l2.
+Proof. induction l1; intros [|y l2] E; simpl in *; try discriminate; auto. f_equal. apply IHl1. lia. Qed.
+Lemma map_fst_combine' {X Y} (l1 : list X) : forall l2 : list Y, length l1 = length l2 -> map fst (combine l1 l2) = l1.
+Proof. induction l1; intros [|y l2] E; simpl in *; try discriminate; auto. f_equal. apply IHl1. lia. Qed.
